@@ -6,7 +6,7 @@ Open Scope Z_scope.
 
 (* outputs allowed while stopping: no processor call, no request, no timer; the start Deferred does not succeed *)
 Definition okout (x : output) : bool :=
-  negb (is_activity x) && match x with OStartD true _ | ORet _ | ORaised _ => false | _ => true end.
+  negb (is_activity x) && match x with OStartD true _ | OShutD true _ _ | ORet _ | ORaised _ => false | _ => true end.
 Definition noact (o : list output) : Prop := forallb okout o = true.
 Lemma noact_app a b : noact a -> noact b -> noact (a ++ b).
 Proof. unfold noact. rewrite forallb_app. intros -> ->. reflexivity. Qed.
@@ -116,9 +116,10 @@ Proof. intro H. unfold stop_susp in H. mi H; (split; [in3_chain | split; [noact_
 
 (* ---------------- the re-entrant part ---------------- *)
 Definition okout2 (lpv : Z) (x : output) : bool :=
-  negb (is_activity x) && match x with OStartD true v => v =? lpv | ORet _ | ORaised _ => false | _ => true end.
+  negb (is_activity x) && match x with OStartD true v => v =? lpv | OShutD true _ _ | ORet _ | ORaised _ => false | _ => true end.
 Definition StopPost (s : state) (r : res unit) (s' : state) (o : list output) : Prop :=
   forallb (okout2 (encv (s_lp s))) o = true /\
+  (r = Ok tt -> s_lp s' = s_lp s /\ s_lc s' = s_lc s) /\
   (r = Ok tt -> s_looper s <> Some false ->
      quiescent s' = true /\ s_susp s' = false /\ s_looper s' = None /\ s_lp s' = s_lp s /\ s_lc s' = s_lc s /\
      s_maxatt s' = (if s_susp s then 0 else s_maxatt s)).
@@ -279,7 +280,11 @@ Ltac blk := repeat (stp; match goal with
 Lemma body_KStop_in s r s' o : body (run f) KStop s = (r, s', o) -> fuel_ok o = true -> s_stopping s = false -> StopPost s r s' o.
 Proof.
   intros H Hf Hst. cbn [body] in H. unfold stop_startd in H. mi H; fuel_split; use_ih; blk.
-  all: split; [| intros Hr Hl; try discriminate Hr ].
+  all: split; [| split; [intros Hr; try discriminate Hr | intros Hr Hl; try discriminate Hr] ].
+  (* last_processed / last_committed are not touched *)
+  all: try (solve [ match goal with |- s_lp (set_startd None (set_stopping false ?x)) = _ /\ _ =>
+                      let L := fresh "L" in assert (L : In3 (set_stopping true s) x) by in3_chain;
+                      destruct L as [_ _ _ _ _ _ _ _ _ _ Llp Llc _]; psimpl; split; assumption end ]).
   (* outputs: nothing but cancellations and outcomes; the start Deferred succeeds with last_processed_offset *)
   all: try match goal with |- forallb _ _ = true =>
          try match goal with |- context [OStartD true (encv (s_lp ?x))] =>
@@ -353,7 +358,7 @@ Theorem stop_step fuel s s' o :
 Proof.
   intros Hst Hl H Hf Hr. apply step_inv in H. destruct H as (o1 & H & ->).
   unfold handle in H. cbn zeta in H. unfold api_stop in H. mi H.
-  all: fuel_split; pose proof (run_stop _ _ _ _ _ _ E0 ltac:(assumption) Hst) as (P1 & P2).
+  all: fuel_split; pose proof (run_stop _ _ _ _ _ _ E0 ltac:(assumption) Hst) as (P1 & _ & P2).
   all: destruct (ok2_facts _ _ P1) as (Q1 & Q2 & Q3).
   - destruct a. destruct (P2 eq_refl Hl) as (R1 & R2 & R3 & R4 & R5 & R6).
     rewrite R4. repeat split; auto.
